@@ -72,6 +72,9 @@ def build_corpus(tier, rng):
     # lifetimes (EnumIs / EnumTryAs accept them)
     items.append(("lifetime", Item("E", [Variant("Borrowed", "tuple", [Field("&'l0 str"), Field("u8")]), Variant("Owned", "tuple", [Field("String")]),
                                         Variant("Nothing", "unit")], lifetimes=1)))
+    if G.NO_PROBE:       # nobody can name the methods of non-ASCII identifiers without the probe
+        for _, it_ in items:
+            it_.variants = [v for v in it_.variants if v.ident.isascii()]
     names = G.model_query(ID, [it for _, it in items], [("is", ["names"]), ("tryas", ["names"]), ("is", ["allnames"])])
     # identifiers outside the model's domain: their snake names are taken from the Rust reference
     uni = sorted({v.ident for _, it in items for v in it.variants if not v.ident.isascii()})
@@ -79,9 +82,10 @@ def build_corpus(tier, rng):
     if uni:
         from vlib import run as R_
         import os as os_
-        binp, err = R_.build_genprobe()
-        if binp is None:
-            raise RuntimeError("genprobe does not build: " + str(err))
+        binp, err = (None, "probe disabled") if G.NO_PROBE else R_.build_genprobe()
+        if binp is None and not G.NO_PROBE:
+            raise G.ProbeUnavailable("genprobe (the generator sources of /repo compiled as a library) does not build: " + str(err)[-1500:])
+    if uni:
         obs, _ = R_.run_genprobe(binp, ["snakifyu %d %s" % (n, G.hx(u)) for n, u in enumerate(uni)], os_.path.join(R_.WORK, ID, "names"))
         for n, u in enumerate(uni):
             parts = dict(p.split("=", 1) for p in obs.get(n, "").split("|") if "=" in p)
